@@ -165,6 +165,13 @@ func manageCanaryPodFailures(pods []*v1.Pod, params *Parameters, result *Result,
 		autoFailCanaryTimeout = canary.AutoFail.CanaryTimeout
 	}
 
+	// The unpause request is evaluated per pod below; without any canary pod to evaluate it still has to be
+	// honoured, otherwise a canary paused before its pods exist could never resume.
+	if len(pods) == 0 && result.IsUnpaused && !result.IsFailed {
+		result.IsPaused = false
+		result.PausedReason = ""
+	}
+
 	startCondition := conditions.GetExtendedDaemonSetReplicaSetStatusCondition(result.NewStatus, v1alpha1.ConditionTypeCanary)
 	restartCondition := conditions.GetExtendedDaemonSetReplicaSetStatusCondition(params.NewStatus, v1alpha1.ConditionTypePodRestarting)
 
